@@ -52,8 +52,14 @@ def rsplitDot (s : Str) : Str :=
 /-- `os.path.basename`: what follows the last '/' -/
 def basename (s : Str) : Str := (s.reverse.takeWhile (· ≠ '/')).reverse
 
-/-- `"%s_result.json" % os.path.basename(infile.rsplit(".", 1)[0])` -/
-def resultName (infile : Str) : Str := basename (rsplitDot infile) ++ "_result.json".toList
+/-- `os.path.splitext(name)[0]`: the part before the last '.', unless that part consists of dots only
+(leading dots do not start an extension) -/
+def splitextStem (name : Str) : Str :=
+  let r := rsplitDot name
+  if r.all (· == '.') then name else r
+
+/-- `"%s_result.json" % os.path.splitext(os.path.basename(infile))[0]` -/
+def resultName (infile : Str) : Str := splitextStem (basename infile) ++ "_result.json".toList
 
 inductive Outcome (R : Type) where
   | exitNonzero                          -- no result file written
